@@ -1,6 +1,7 @@
 package main
 
 import (
+	"regexp"
 	"sort"
 	"strconv"
 	"fmt"
@@ -58,7 +59,21 @@ var pureExternalFuncs = map[string]bool{
 	"os.OpenFile": true, "os.(*File).Stat": true, "os.(*File).Truncate": true, "os.(*File).Close": true, "os.(*File).Fd": true,
 	"os.(*File).Name": true, "os.Remove": true, "os.MkdirAll": true, "os.ReadDir": true, "io/fs.FileInfo.Size": true, "os.FileInfo.Size": true,
 	"io/fs.DirEntry.IsDir": true, "io/fs.DirEntry.Name": true, "os.(*File).Sync": true,
-	"sync/atomic.AddInt64": true, "sync/atomic.LoadInt64": true, "sync/atomic.AddInt32": true, "sync/atomic.LoadInt32": true,
+	"sync/atomic.LoadInt64": true, "sync/atomic.LoadInt32": true,
+}
+
+// externalWritesArgs: functions of the packages above that do write memory handed to them (through a
+// pointer, a slice or a map argument): never treated as side-effect free.
+var externalWritesArgsRe = regexp.MustCompile(`^(fmt\.(Sscan|Fscan|Scan)|encoding/binary\.(Read|Decode|Put|Write|Encode)|encoding/binary\..*\.Put|slices\.(Sort|Reverse|Delete|Insert|Compact|Replace|Grow|Clip)|maps\.(Copy|DeleteFunc|Insert)|bytes\.\(\*(Buffer|Reader)\)\.(Read|WriteTo)|sync/atomic\.(Add|Store|Swap|CompareAndSwap|And|Or))`)
+
+func externalPure(key string) bool {
+	if key == "" || inRepo(key) {
+		return false
+	}
+	if !(pureExternalPkgs[pkgOfKey(key)] || pureExternalFuncs[key]) {
+		return false
+	}
+	return !externalWritesArgsRe.MatchString(key)
 }
 
 func pkgOfKey(key string) string {
@@ -161,15 +176,14 @@ func (g *Gen) callCommon(in *ssa.Call, common *ssa.CallCommon, args []*SV, st *S
 	if !g.pa {
 		// P level: a side-effect-free external function may be called; its result is unknown
 		// (a function that depends on it can then only be proved where the result does not matter)
-		if !(key != "" && !inRepo(key) && (pureExternalPkgs[pkgOfKey(key)] || pureExternalFuncs[key])) {
+		if !externalPure(key) {
 			g.fail(pos, "call to %s has no contract and is not a modelled intrinsic (P-level)", desc)
 		}
 	}
 	g.unmodelled["call "+desc] = true
 	g.nHavoc++
-	pk := pkgOfKey(key)
 	switch {
-	case key != "" && !inRepo(key) && (pureExternalPkgs[pk] || pureExternalFuncs[key]):
+	case externalPure(key):
 		// external, treated as pure: results fresh, heap untouched
 		g.trusted["external "+key+" treated as side-effect free"] = true
 	case key != "" && !inRepo(key):
@@ -262,7 +276,7 @@ func (g *Gen) callWrites(in ssa.CallInstruction) (heaps []string, globals []*ssa
 	if g.isIntrinsic(key) {
 		return nil, nil, nil, false
 	}
-	if !inRepo(key) && (pureExternalPkgs[pkgOfKey(key)] || pureExternalFuncs[key]) {
+	if externalPure(key) {
 		return nil, nil, nil, false
 	}
 	return nil, nil, nil, true
